@@ -16,7 +16,7 @@ fn attach(sbj: &Subject<'static, u8>, log: &'static Log) -> Subscription<'static
   )
 }
 
-fn held(sbj: &Subject<'static, u8>) -> usize {
+pub(crate) fn held(sbj: &Subject<'static, u8>) -> usize {
   sbj.observers.read().unwrap().len()
 }
 
